@@ -120,7 +120,9 @@ pub fn is_vint(val: u64) -> bool {
         return false;
     }
 
-    (val.ilog2() % 7) == 0
+    // The marker of an n-byte id is bit 7n: 1 (marker in an absent byte) and values above 2^57 are not ids
+    let log = val.ilog2();
+    log % 7 == 0 && (7..=56).contains(&log)
 }
 
 ///
